@@ -292,8 +292,10 @@ C13_Bodies ==
 UsesSeq(X1, X2, X3) ==
   << <<X1>>, <<Lb, X1>>, <<X1, La>>, <<Loop(1, -1, FALSE, X1)>>, <<Or(AsLit(X1), Lb)>>, <<Loop(0, 1, TRUE, X1), Lb>>,
      <<X1, X2>>, <<X1, Lb, X2>>, <<Or(AsLit(X1), X2)>>, <<X1, Loop(0, -1, FALSE, X2)>>, <<X1, X2, X3>>,
-     <<Loop(0, 1, FALSE, X1), X2, Loop(1, 2, FALSE, X3)>> >>
-NUses == 12
+     <<Loop(0, 1, FALSE, X1), X2, Loop(1, 2, FALSE, X3)>>,
+     \* counted loops (their mandatory copies) whose body refers to the definition made outside
+     <<X1, Loop(2, 2, FALSE, Grp(<<X2, Lb>>))>>, <<X1, Loop(2, -1, FALSE, X2)>>, <<X1, Loop(2, 3, TRUE, Grp(<<Lb, X2>>)), X3>> >>
+NUses == 15
 Written(B)  == UsesSeq(Grp(B), Grp(B), Grp(B))
 InlineSub(B) == UsesSeq(Sub("s", B), Ref("s"), Ref("s"))
 GlobalRef(B) == UsesSeq(Ref("s"), Ref("s"), Ref("s"))
